@@ -347,7 +347,7 @@ def c19(ck, replay=None):
         if lines:
             ck.sample({'kind': 'replayed_behaviour', 'b_w_custom_times_yields': json.loads(lines[len(lines) // 2])})
     # (b) code -> spec: real queue.Queue + producer thread under detsched, traces validated by TLC
-    scs = EB.gen_scenarios(rnd, 500 if thorough else 70)
+    scs = EB.gen_scenarios(rnd, 2000 if thorough else 70)
     strategies = ['random', 'pct', 'starve_consumer', 'starve_producer', 'random']
     t_items, k = [], 0
     for sc in scs:
